@@ -12,9 +12,10 @@ MATCHERS = {}
 def regen_leaves():
     """CmGen/Leaves.lean: the numeric functions and constants of the source as they read now (the `source_*`
     theorems of CmProps/C01tie.lean identify them with the model)"""
-    from translate import leaves, optimiser
+    from translate import leaves, optimiser, api
     leaves.generate()
     optimiser.generate()
+    api.generate()              # CmGen/Api.lean: make_readable as it reads now (CmProps/C01cap.lean states the property about that image)
 _CERT = {}
 RAT = {3.0: (3, 1), 4.5: (9, 2), 7.0: (7, 1)}
 
